@@ -217,6 +217,9 @@ theorem transf_isSlice (n : Nsp) (b : List String) (e e' : Expr) (h : transf n b
   | namedExpr t v =>
     simp only [transf] at h
     obtain ⟨v', _, h⟩ := bind_ok h
+    by_cases hm : b.contains lamMark = true
+    · rw [if_pos hm] at h; cases pure_ok h; rfl
+    rw [if_neg hm] at h
     obtain ⟨r, _, h⟩ := bind_ok h
     split at h
     · cases pure_ok h; rfl
@@ -252,6 +255,9 @@ theorem transf_isTuple (n : Nsp) (b : List String) (e e' : Expr) (h : transf n b
   | namedExpr t v =>
     simp only [transf] at h
     obtain ⟨v', _, h⟩ := bind_ok h
+    by_cases hm : b.contains lamMark = true
+    · rw [if_pos hm] at h; cases pure_ok h; rfl
+    rw [if_neg hm] at h
     obtain ⟨r, hr, h⟩ := bind_ok h
     split at h
     · cases pure_ok h; rfl
@@ -327,6 +333,10 @@ mutual
         simp only [wfE] at hw
         simp only [transf] at h
         obtain ⟨v', hv, h⟩ := bind_ok h
+        by_cases hm : b.contains lamMark = true
+        · rw [if_pos hm] at h; cases pure_ok h
+          simp only [wfE]; exact transf_wf n b v v' hv hw
+        rw [if_neg hm] at h
         obtain ⟨r, hr, h⟩ := bind_ok h
         have hr' := getAssign_wf hr (transf_wf n b v v' hv hw)
         split at h
